@@ -12,7 +12,7 @@ import os
 
 import vlib
 
-HAND_FILES = ["Props/C26_model.v"]
+HAND_FILES = ["Props/C26_model.v", "Props/C26_order.v"]
 
 
 def cname(s):
@@ -58,6 +58,68 @@ def observe():
                     nums.append(None)
             tps.append((combo, td, nums))
     return tbl, names, obs, lt, tps
+
+
+def observe_union():
+    """the pool of cells of BOTH classes (named cells and tensor products of <= 3 named cells, tdim <= 3), their
+    model keys (class name, tdim, list of factor names - read from the live objects) and the full `<` matrix"""
+    import ufl.cell as uc
+    tbl = uc._sub_entity_celltypes
+    names = list(tbl.keys())
+    small = [n for n in names if len(tbl[n]) - 1 <= 3]
+    pool = [uc.Cell(n) for n in names]
+    for k in (1, 2, 3):
+        for combo in itertools.product(small, repeat=k):
+            if sum(len(tbl[n]) - 1 for n in combo) <= 3:
+                pool.append(uc.TensorProductCell(*[uc.Cell(n) for n in combo]))
+    keys = []
+    for c in pool:
+        hd = c._ufl_hash_data_()
+        if isinstance(c, uc.TensorProductCell):
+            if not all(isinstance(x, tuple) and len(x) == 1 and isinstance(x[0], str) for x in hd):
+                raise RuntimeError(f"hash data of {c!r} is not a tuple of (name,) tuples: {hd!r}")
+            data = [x[0] for x in hd]
+        else:
+            if not (isinstance(hd, tuple) and len(hd) == 1 and isinstance(hd[0], str)):
+                raise RuntimeError(f"hash data of {c!r} is not (name,): {hd!r}")
+            data = [hd[0]]
+        keys.append((type(c).__name__, c.topological_dimension, data))
+    mat = []
+    for a in pool:
+        row = []
+        for b in pool:
+            try:
+                row.append(bool(a < b))
+            except Exception as e:  # noqa: BLE001
+                row.append(f"raises {type(e).__name__}")
+        mat.append(row)
+    return pool, keys, mat
+
+
+def union_order_search(pool, keys, mat):
+    """strict total order on the union pool, decided on the real `<`"""
+    n = len(pool)
+    for i in range(n):
+        for j in range(n):
+            if isinstance(mat[i][j], str):
+                return {"cells": [repr(pool[i]), repr(pool[j])], "fails": f"a < b {mat[i][j]}"}
+    for i in range(n):
+        if mat[i][i]:
+            return {"cells": [repr(pool[i])], "fails": "a < a"}
+        for j in range(n):
+            same = keys[i] == keys[j]
+            if i != j and not same and mat[i][j] == mat[j][i]:
+                return {"cells": [repr(pool[i]), repr(pool[j])], "fails": "ordering not total/asymmetric",
+                        "a<b": mat[i][j], "b<a": mat[j][i]}
+    for i in range(n):
+        for j in range(n):
+            if not mat[i][j]:
+                continue
+            for k in range(n):
+                if mat[j][k] and not mat[i][k]:
+                    return {"cells": [repr(pool[i]), repr(pool[j]), repr(pool[k])],
+                            "fails": "ordering not transitive: a < b and b < c but not a < c"}
+    return None
 
 
 def conv(a, b):
@@ -176,6 +238,40 @@ def main(run):
     run.add_coq_result(hand)
     res = vlib.coqc(path)
     run.add_coq_result(res)
+    # the order on the union of the cell classes: every pair of the pool against the model all_ltb
+    pool, ukeys, umat = observe_union()
+    for k_ in ukeys:
+        run.count_case(("union", k_[0], k_[1], tuple(k_[2])))
+    u = ["Require Import UFLV.Props.C26_order.\nRequire Import List Bool.\nImport ListNotations.\n",
+         "Definition ukeys : list ckey := " + clist(ukeys, lambda k_: f"({cname(k_[0])}, ({k_[1]}, {clist(k_[2], cname)}))") + ".\n",
+         "Example union_order_matrix : map (fun a => map (all_ltb a) ukeys) ukeys = "
+         + clist(umat, lambda row: clist(row, lambda b: "true" if b is True else "false"))
+         + ". Proof. vm_compute. reflexivity. Qed.\n",
+         "(* instances of the order theorems on the pool (they hold for ALL keys) *)\n"
+         "Theorem C26_union_strict_total : forall a b c, In a ukeys -> In b ukeys -> In c ukeys ->\n"
+         "  all_ltb a a = false /\\ (all_ltb a b = true -> all_ltb b c = true -> all_ltb a c = true) /\\\n"
+         "  (a <> b -> all_ltb a b = true \\/ all_ltb b a = true).\n"
+         "Proof. intros a b c _ _ _. split; [apply C26_all_lt_irrefl|]. split; [apply C26_all_lt_trans|apply C26_all_lt_total]. Qed.\n",
+         "Print Assumptions C26_union_strict_total.\n"]
+    upath = os.path.join(vlib.GEN, "C26_union.v")
+    vlib.write_if_changed(upath, "".join(u))
+    hand2 = vlib.coqc("Props/C26_order.v")
+    run.add_coq_result(hand2)
+    ures = vlib.coqc(upath)
+    run.add_coq_result(ures)
+    raises = [(repr(pool[i]), repr(pool[j]), umat[i][j]) for i in range(len(pool)) for j in range(len(pool))
+              if isinstance(umat[i][j], str)]
+    dup = len({(k_[0], k_[1], tuple(k_[2])) for k_ in ukeys}) != len(ukeys)
+    if (not ures.ok) or (not hand2.ok) or raises or dup:
+        w = union_order_search(pool, ukeys, umat)
+        rep_ = {"broken_obligation": ures.failing_lemma() if not ures.ok else ("C26_order" if not hand2.ok else
+                                                                               "comparison raises / duplicate keys"),
+                "coq_message": (ures.err or hand2.err or "")[-600:], "reproduce": "bin/check C26",
+                "what": "the real `<` on the union of Cell and TensorProductCell differs from the model order "
+                        "(class name, then tdim, then names)"}
+        if w:
+            rep_["witness"] = w
+        run.violation(rep_, bool(w))
     run.checker_cmds.append("coqc -Q coq UFLV coq/Props/C26_model.v coq/Gen/C26_table.v")
     run.extra["exhaustive"] = True
     broken = (not res.ok) or (not hand.ok) or (not ok_neg)
@@ -195,4 +291,4 @@ def main(run):
     return run.finish(
         rule="all named cells of ufl.cell (exhaustive) and all tensor products of <= 3 named cells with total tdim <= 3; "
              "distinct = distinct cell / factor tuple",
-        assumptions=["comparison across different cell classes (by class name) is not part of the model"])
+        assumptions=["tensor products of tensor products and CellSequence are outside the pool"])
